@@ -121,6 +121,7 @@ func (g *G) backend(c *Config, allowed []string, faulty bool) {
 		}
 	}
 	c.ClockStepMs = []int{1, 7, 400, 1500}[g.rng.Intn(4)]
+	c.BoltMmap = c.Backend == "bolt" && g.chance(0.5)
 }
 
 var bucketNames = []string{"bkt-aaa", "bkt-bbb", "bkt-ccc"}
